@@ -66,5 +66,25 @@ func DefaultParser[T constraint.ParserInput](input T, r Rule) (date Date, err er
 	year, _ := strconv.Atoi(string(parts[1]))
 	month, _ := strconv.Atoi(string(parts[2]))
 	day, _ := strconv.Atoi(string(parts[3]))
+	if !validDate(year, month, day) {
+		return Date{}, newParseError(funcName, input, nil)
+	}
 	return New(year, Month(month), day), nil
+}
+
+func validDate(year, month, day int) bool {
+	if month < 1 || month > 12 || day < 1 {
+		return false
+	}
+	switch month {
+	case 4, 6, 9, 11:
+		return day <= 30
+	case 2:
+		if year%4 == 0 && (year%100 != 0 || year%400 == 0) {
+			return day <= 29
+		}
+		return day <= 28
+	default:
+		return day <= 31
+	}
 }
